@@ -301,3 +301,33 @@ def family_cb_special(tier, seed, n=None):
                             "cb_script": [{"ph": "pre", "o": "o1", "assign": "o1.k", "v": bits(kv, 2)}]})
         out.append({"id": "T17/special/%d" % t, "world": world, "ops": ops, "tags": []})
     return out
+
+
+def family_cb_nothing_to_solve(tier, seed):
+    """calls that have nothing to solve - every random field switched off with rand_mode, or a tree that declares no random
+    scalar and no constraint at all: the hooks still run once each, before and after, on the top object and its random members"""
+    out = []
+    for t in range(4 if tier == "quick" else 12):
+        leaf = {"base": "", "cb": True, "fields": [fld("x", 2, False, rand=t % 2 == 0), fld("z", 2, False, rand=False, init=1)], "blocks": []}
+        top = {"base": "", "cb": True,
+               "fields": [fld("a", 2, False, rand=t % 2 == 0), fld("k", 2, False, rand=False, init=0),
+                          {"name": "s", "kind": "obj", "cls": "Leaf", "rand": True},
+                          {"name": "ol", "kind": "objlist", "cls": "Leaf", "n": 2, "rand": True}],
+               "blocks": [] if t % 4 < 2 else [{"name": "c1", "dynamic": False, "body": [E(B("le", F("a"), lit(3)))]}]}
+        world = {"classes": {"Leaf": leaf, "Top": top}, "population": [{"id": "o1", "cls": "Top"}]}
+        calls = [mcall("o1"), wcall([], "o1"), {"kind": "free", "roots": ["o1"], "owner": "", "inline": []},
+                 {"kind": "free", "roots": ["o1.s"], "owner": "", "inline": []}]
+        ops = [{"op": "construct", "o": "o1"}]
+        rand_paths = ["o1.a", "o1.s.x", "o1.ol[0].x", "o1.ol[1].x"] if t % 2 == 0 else []
+        ops += [{"op": "call", "call": c} for c in calls[:2]]
+        for p in rand_paths:
+            ops.append({"op": "rand_mode", "p": p, "b": False})
+        if t % 4 >= 2:
+            ops.append({"op": "cmode", "o": "o1", "b": "c1", "en": False})
+        for c in calls:
+            ops.append({"op": "call", "call": c, "cb_script": [{"ph": "pre", "o": c["roots"][0], "assign": c["roots"][0] + (".k" if c["roots"][0] == "o1" else ".z"), "v": bits(2, 2)}]})
+        for p in rand_paths[:1]:
+            ops.append({"op": "rand_mode", "p": p, "b": True})
+        ops += [{"op": "call", "call": c} for c in calls[:3]]
+        out.append({"id": "T17/nothing/%d" % t, "world": world, "ops": ops, "tags": []})
+    return out
